@@ -155,7 +155,7 @@ def _m_asarray(x, dtype=None, **k):
         return x
     if isinstance(x, SymSeq):
         # a 1-d array of the same elements (an integer dtype is ASSUMED wide enough for them)
-        return x.as_kind("list", copy=True)
+        return x.as_kind("array", copy=True)
     if isinstance(x, (list, tuple)):
         rows = [list(r) if isinstance(r, (list, tuple)) else r for r in x]
         return SymNd(rows)
@@ -200,7 +200,7 @@ def _m_diff(a, *args, **kw):
     j = z3.Int("j!diff")
     arr = a.arrs[0]
     n = z3.If(a.n >= 1, a.n - 1, z3.IntVal(0))
-    return SymSeq("list", a.elem, n, [z3.Lambda([j], z3.Select(arr, j + 1) - z3.Select(arr, j))])
+    return SymSeq("array", a.elem, n, [z3.Lambda([j], z3.Select(arr, j + 1) - z3.Select(arr, j))])
 
 
 class SymLin:
